@@ -22,6 +22,17 @@ impl RoaringBitmap {
     #[verifier::external_body] pub fn bitand<A: RbArg>(&self, o: A) -> (r: RoaringBitmap) ensures rb_view(&r) == rb_view(self).intersect(o.v()) { unimplemented!() }
     #[verifier::external_body] pub fn bitor<A: RbArg>(&self, o: A) -> (r: RoaringBitmap) ensures rb_view(&r) == rb_view(self).union(o.v()) { unimplemented!() }
     #[verifier::external_body] pub fn bitxor_assign<A: RbArg>(&mut self, o: A) ensures rb_view(final(self)) == sxor(rb_view(old(self)), o.v()) { unimplemented!() }
+    // further methods of the real type that a maintenance edit of nogoods.rs may reach for (same textbook meaning, ASSUMED)
+    #[verifier::external_body] pub fn bitand_assign<A: RbArg>(&mut self, o: A) ensures rb_view(final(self)) == rb_view(old(self)).intersect(o.v()) { unimplemented!() }
+    #[verifier::external_body] pub fn bitor_assign<A: RbArg>(&mut self, o: A) ensures rb_view(final(self)) == rb_view(old(self)).union(o.v()) { unimplemented!() }
+    #[verifier::external_body] pub fn sub_assign<A: RbArg>(&mut self, o: A) ensures rb_view(final(self)) == rb_view(old(self)).difference(o.v()) { unimplemented!() }
+    #[verifier::external_body] pub fn sub<A: RbArg>(&self, o: A) -> (r: RoaringBitmap) ensures rb_view(&r) == rb_view(self).difference(o.v()) { unimplemented!() }
+    #[verifier::external_body] pub fn is_subset(&self, o: &RoaringBitmap) -> (r: bool) ensures r == rb_view(self).subset_of(rb_view(o)) { unimplemented!() }
+    #[verifier::external_body] pub fn is_superset(&self, o: &RoaringBitmap) -> (r: bool) ensures r == rb_view(o).subset_of(rb_view(self)) { unimplemented!() }
+    #[verifier::external_body] pub fn is_disjoint(&self, o: &RoaringBitmap) -> (r: bool) ensures r == (rb_view(self).intersect(rb_view(o)) =~= Set::<u32>::empty()) { unimplemented!() }
+    #[verifier::external_body] pub fn max(&self) -> (r: Option<u32>)
+        ensures match r { Some(m) => rb_view(self).contains(m) && forall|x: u32| rb_view(self).contains(x) ==> x <= m, None => rb_view(self) =~= Set::<u32>::empty() } { unimplemented!() }
+    #[verifier::external_body] pub fn clear(&mut self) ensures rb_view(final(self)) =~= Set::<u32>::empty() { unimplemented!() }
 }
 impl Clone for RoaringBitmap { #[verifier::external_body] fn clone(&self) -> Self { unimplemented!() } }
 // std conversions the code `expect`s to succeed (the precondition is the panic condition)
